@@ -252,7 +252,7 @@ impl Engine for CmdSim {
     }
     fn runs(&self, tier: Tier) -> u64 {
         match tier {
-            Tier::Quick => 60_000,
+            Tier::Quick => 300_000,
             Tier::Thorough => 10_000_000,
         }
     }
